@@ -519,3 +519,47 @@ def rand_u64(it, st, args, fname):
     if fname.endswith('Int63'):
         v = v & 0x7fffffffffffffff
     return ret(st, v)
+
+
+# ------------------------------------------------------------------ slices (the generic implementations use unsafe)
+
+@I.regp('slices.Insert[')
+def slices_insert(it, st, args, fname):
+    s, i, vs = args
+    et = None
+    for x in (s, vs):
+        if isinstance(x, Slice) and x.obj is not None:
+            arr, et = it.slice_elems(st, x)
+            break
+    old = it.slice_values(st, s, 'slices.Insert target') if s.obj is not None else []
+    new = it.slice_values(st, vs, 'slices.Insert values') if vs.obj is not None else []
+    idx = it.concrete_int(st, i, 'slices.Insert index')
+    if idx < 0 or idx > len(old):
+        it.violated(st, 'slices.Insert:index')
+    vals = old[:idx] + new + old[idx:]
+    if et is None:
+        return ret(st, s)
+    return ret(st, it.make_slice(st, et, vals))
+
+
+# ------------------------------------------------------------------ strings.Builder (uses unsafe internally)
+
+@I.reg('(*strings.Builder).copyCheck')
+def sb_copycheck(it, st, args, fname):
+    return ret(st)
+
+
+@I.reg('(*strings.Builder).String')
+def sb_string(it, st, args, fname):
+    b = it.load(st, args[0], 'strings.Builder')
+    t = E.ty('strings.Builder')
+    idx = [i for i, f in enumerate(t['fields']) if f['name'] == 'buf'][0]
+    sl = b[idx]
+    if sl.obj is None:
+        return ret(st, Str(()))
+    return ret(st, Str(it.slice_values(st, sl, 'strings.Builder content')))
+
+
+@I.reg('unsafe.String')
+def unsafe_string(it, st, args, fname):
+    raise Unsupported('unsafe.String')
